@@ -35,6 +35,8 @@ def shards(tier, seed):
     if tier == "quick":
         for kind in ("full", "diag", "identity", "identity_diag"):
             out.append(dict(id="C10/%s/Dx4.Dy4.big" % kind, kind=kind, Dx=4, Dy=4, big=True, cost=10, facts=dict(kind=kind, Dx=4, Dy=4)))
+        for kind, Dx, Dy in (("full", 5, 5), ("diag", 5, 5), ("full", 6, 3), ("identity", 5, 5)):
+            out.append(dict(id="C10/%s/Dx%d.Dy%d.large" % (kind, Dx, Dy), kind=kind, Dx=Dx, Dy=Dy, big=5, cost=12, facts=dict(kind=kind, Dx=Dx, Dy=Dy)))
     return out
 
 
@@ -42,7 +44,7 @@ def run_shard(shard, ctx):
     tier, seed = shard["tier"], shard["seed"]
     kind, Dx, Dy = shard["kind"], shard["Dx"], shard["Dy"]
     vis = [0, 1, 100] if tier == "quick" else [0, 1, 2, 3, 100, 101, 102]
-    Ns = BOUNDS[tier]["N"] if not shard.get("big") else [4]
+    Ns = BOUNDS[tier]["N"] if not shard.get("big") else ([4] if shard["big"] is True else [shard["big"]])
     convs = [("R1", N) for N in Ns] + [("RN", N) for N in Ns if N >= 2]
     for conv, N in convs:
         if kind == "nncontrol" and conv == "RN" and N > 3:
